@@ -17,7 +17,7 @@ def search(ctx):
 
 
 def run(ctx):
-    ctx.extract(["layout"])
+    ctx.extract(["layout", "layoutloops"])
     ctx.prove(PROPS, extra_modules=MODULES)
     if ctx.build_harness("c02"):
         ctx.harness("c02", ["run", ctx.seed, ctx.tier], timeout=3000)
